@@ -159,7 +159,17 @@ def _reg3_strip(ctx: Ctx, mod: Mod, fn: ast.AST) -> None:
             if not st.truth(loop.test):
                 return ("EXIT", v)
             k, val = st.run(loop.body, env)
-            cur = norm(env[v]) if v in env else v
+
+            class _Pick(ast.NodeTransformer):
+                # `a if <test this row decides> else b` is the arm the row selects
+                def visit_IfExp(self, e_: ast.IfExp):
+                    self.generic_visit(e_)
+                    t_ = norm(e_.test)
+                    if t_ in assign:
+                        return e_.body if assign[t_] else e_.orelse
+                    return e_
+            import copy as _copy
+            cur = norm(_Pick().visit(_copy.deepcopy(env[v]))) if v in env else v
             if k in ("continue", "fall"):
                 return ("LOOP", cur)
             if k == "break":
